@@ -13,7 +13,8 @@ from ..common import Verdict, run_tlc, tlc_must_pass, validate_traces_parallel, 
 from ..gen import write_job, generate, run_in_pkg
 
 DEF = {
-    "nodefault": ("Int", None, 7, None, None), "int": ("Int", "5", 7, None, None), "float": ("Float", "1.5", 2.5, None, None),
+    "nodefault": ("Int", None, 7, None, None), "nodefault_unmapped": ("Raw", None, {"any": [1]}, None, None),
+    "nodefault_enum": ("Color", None, "RED", None, "enum"), "nodefault_object": ("Sub", None, {"a": 9}, "Sub", None), "int": ("Int", "5", 7, None, None), "float": ("Float", "1.5", 2.5, None, None),
     "float_int": ("Float", "1", 2.5, None, None), "string": ("String", '"abc"', "xyz", None, None),
     "string_quotes": ("String", '"it\'s \\"q\\" \\\\ x"', "v", None, None), "bool": ("Boolean", "true", False, None, None),
     "null": ("String", "null", "v", None, None), "enum": ("Color", "GREEN", "RED", None, "enum"),
@@ -54,7 +55,7 @@ def run(tier, work, replay=None):
     tlc_must_pass(res, "InputModel_MC")
     v.add_tlc(res, "InputModel exhaustive")
     fields = json.loads(out.read_text())
-    sdl = ["scalar Day", "enum Color { RED GREEN in }", "input Sub2 { z: Int }", "input Sub { a: Int c: Color l: [Int] s: Sub2 d: Int = 10 }"]
+    sdl = ["scalar Day", "scalar Raw", "enum Color { RED GREEN in }", "input Sub2 { z: Int }", "input Sub { a: Int c: Color l: [Int] s: Sub2 d: Int = 10 }"]
     qf, ops, uses = [], [], []
     for idx, f in enumerate(fields):
         typ, lit, value, vmodel, vkind = DEF[f["dflt"]]
@@ -63,7 +64,7 @@ def run(tier, work, replay=None):
         sdl.append(f"input I{idx} {{ {gname}: {t}{(' = ' + lit) if lit is not None else ''} pad: Int }}")
         qf.append(f"  e{idx}(i: I{idx}!): Boolean")
         ops.append(f"query Q{idx}($i: I{idx}!) {{ e{idx}(i: $i) }}")
-        required = f["nonnull"] and f["dflt"] == "nodefault"
+        required = f["nonnull"] and f["dflt"].startswith("nodefault")
         for how in ("python_name", "graphql_name"):
             for given in ("unset", "null", "value"):
                 if given == "null" and f["nonnull"]:
@@ -101,7 +102,7 @@ def run(tier, work, replay=None):
             v.violation(feats, "schema_valid_value_rejected", rec)
         else:
             rb, dm, sv = ev["read"]["readback"], ev["dumped"]["dumped"], ev["served"]["server"]
-            if u["given"] == "unset" and f["dflt"] != "nodefault":
+            if u["given"] == "unset" and not f["dflt"].startswith("nodefault"):
                 if rb != "default":
                     v.violation(feats, "default_reads_back_wrong", rec)
                 if sv != "default":
@@ -130,7 +131,7 @@ def run(tier, work, replay=None):
         v.violation(feats, "trace_rejected:" + (",".join(why) or "events"), {"trace": traces[t], "raw": rec})
     v.cov["evaluations"] = len(uses)
     v.cov["traces_validated_against_impl"] = len(traces) - len(bad)
-    v.cov["distinct_nontrivial"] = len([1 for f in fields if f["dflt"] != "nodefault" or f["name"] != "plain"])
+    v.cov["distinct_nontrivial"] = len([1 for f in fields if not f["dflt"].startswith("nodefault") or f["name"] != "plain"])
     v.cov["rule"] = ("fields = default-literal kind (22) x non-null? x field-name class (plain, camelCase, keyword, pydantic attribute, "
                      "leading underscore) enumerated by TLC; each used by Python name and by GraphQL name, unset / null / value; "
                      "non-trivial = has a default or an awkward name")
